@@ -48,4 +48,22 @@ theorem act_deselect_all_is_model (s : Sel) (run cursor : Nat) :
   unfold interp deselectAll SelOps.act_deselect_all
   simp
 
+/-! ### src/global.rs: the run-number table -/
+
+/-- the translated initial state of `NUM_MAP`, `SEQ`, `RUN_NUM` -/
+def interpRunsInit : Runs := { map := SelOps.runInitMap, seq := SelOps.runInitSeq, cur := SelOps.runInitCur }
+
+/-- the translated `mark_new_run` -/
+def interpMarkNewRun (g : Runs) (cmd : String) : Runs :=
+  match Runs.find cmd g.map with
+  | some n => { g with cur := if SelOps.runStores then n else g.cur }
+  | none => { map := (cmd, g.seq) :: g.map, seq := g.seq + SelOps.runSeqStep, cur := if SelOps.runStores then g.seq else g.cur }
+
+theorem runs_init_is_model : interpRunsInit = ({} : Runs) := by
+  simp only [interpRunsInit, SelOps.runInitMap, SelOps.runInitSeq, SelOps.runInitCur]
+
+theorem mark_new_run_is_model (g : Runs) (cmd : String) : interpMarkNewRun g cmd = markNewRun g cmd := by
+  unfold interpMarkNewRun markNewRun
+  cases Runs.find cmd g.map <;> simp [SelOps.runStores, SelOps.runSeqStep]
+
 end SkimModel.SelSet
